@@ -35,6 +35,10 @@ def apiExport (reportsPartial : Bool) : Full → ExportOut
     else if nerr > 0 then .status false
     else .stream (docs.map fun d => (d.id, d.data)) false
 
+/-- the `conf.MaxRequestedDocuments` guard at the top of `Export` (`size` = `req.Size`) -/
+def apiExportReq (maxDocs size : Nat) (reportsPartial : Bool) (f : Full) : ExportOut :=
+  if maxDocs > 0 ∧ size > maxDocs then .status true else apiExport reportsPartial f
+
 /-! ### Fetch (Ingestor.Documents) -/
 
 /-- `expandIDsBySources`: every ID with every source (the code iterates a map per ID; `srcs` is that order) -/
